@@ -304,6 +304,23 @@ fn process_tcp_packet(
 
     let flow_key: FlowKey = (src_ip, dst_ip, src_port, dst_port);
     let reversed_key: FlowKey = (dst_ip, src_ip, dst_port, src_port);
+
+    // A SYN without ACK opens a connection. A flow still stored for this 4-tuple that was not opened
+    // by this very SYN (a retransmission carries the same sequence number) belongs to an earlier
+    // connection: drop it, so that the new connection is not spliced onto its leftovers.
+    let flags = tcp.get_flags();
+    if flags & pnet::packet::tcp::TcpFlags::SYN != 0
+        && flags & pnet::packet::tcp::TcpFlags::ACK == 0
+    {
+        let retransmitted = http_flows
+            .get(&flow_key)
+            .is_some_and(|flow| flow.client_isn == tcp.get_sequence());
+        if !retransmitted {
+            http_flows.remove(&flow_key);
+            http_flows.remove(&reversed_key);
+        }
+    }
+
     let (tcp_flow, is_client) = {
         if let Some(flow) = http_flows.get_mut(&flow_key) {
             (Some(flow), true)
